@@ -124,6 +124,7 @@ SumVerdict(P, ins, st) ==
      ELSE LET W == FoldAdd(P, idx, Const(FZ, NS), NS)                   \* adding left to right from zero
               S == FoldAbs(P, idx, Const(FZ, NS), NS)
           IN V(/\ ShapeOK(st.res)
+               /\ st.res.re = W.re                                               \* the VALUE is the left fold from zero, bit for bit (a pairwise / reordered reduction rounds differently)
                /\ NamesOf(st.res) = UNION {NamesOf(Reg(P, idx[i])) : i \in 1..Len(idx)}
                /\ CloseTo(st.res, [re |-> W.re, g |-> W.g, h |-> W.h, sre |-> S.re, sg |-> S.g, sh |-> S.h], NS))
 ConstVerdict(op, ins, st) ==
@@ -256,7 +257,15 @@ WrapSrc(P, r) == IF r <= NL(P) THEN r
                  ELSE LET st == P.steps[r - NL(P)] IN IF st.ins.op = "wrap" /\ st.o = "ok" THEN st.ins.a ELSE r
 TwinOf(P, s) ==
   LET ins == P.steps[s].ins IN
-  IF ~(Has(ins, "a") /\ Has(ins, "b")) THEN 0
+  IF Has(ins, "a") /\ ~Has(ins, "b") /\ ins.op \in {"neg", "abs", "signum", "is_positive", "is_negative", "is_zero", "exp", "log", "ncdf", "incdf", "pow"} THEN
+       \* a unary operation on a wrap-copy: its twin is the same operation (same form, same exponent) on the bare register
+       LET ua == WrapSrc(P, ins.a)
+           C == {t \in 1..Len(P.steps) : /\ t # s /\ P.steps[t].ins.op = ins.op /\ Has(P.steps[t].ins, "a") /\ ~Has(P.steps[t].ins, "b")
+                                         /\ P.steps[t].ins.a = ua
+                                         /\ (Has(ins, "fa") => Has(P.steps[t].ins, "fa") /\ P.steps[t].ins.fa = ins.fa)
+                                         /\ (Has(ins, "p") => Has(P.steps[t].ins, "p") /\ P.steps[t].ins.p = ins.p)}
+       IN IF ua = ins.a \/ C = {} THEN 0 ELSE CHOOSE t \in C : TRUE
+  ELSE IF ~(Has(ins, "a") /\ Has(ins, "b")) THEN 0
   ELSE LET ua == WrapSrc(P, ins.a) ub == WrapSrc(P, ins.b)
            C == {t \in 1..Len(P.steps) : /\ t # s /\ P.steps[t].ins.op = ins.op /\ Has(P.steps[t].ins, "a") /\ Has(P.steps[t].ins, "b")
                                          /\ P.steps[t].ins.a = ua /\ P.steps[t].ins.b = ub
